@@ -283,7 +283,7 @@ func stateInAnnotationObjectKey(s *Scanner, c byte) state {
 	case c == s.boundary:
 		s.step = stateEndValue
 
-	case c == ' ':
+	case bytes.IsSpace(c):
 		s.step = stateInAnnotationObjectKeyAfter
 
 	case c < 0x20 || (c == '"' || bytes.IsNewLine(c)):
@@ -297,7 +297,7 @@ func stateInAnnotationObjectKeyAfter(s *Scanner, c byte) state {
 	case s.boundary == 0 && c == ':':
 		return stateEndValue(s, c)
 
-	case c == ' ':
+	case bytes.IsSpace(c):
 		return scanContinue
 	}
 	panic(s.newDocumentError(errors.ErrInvalidCharacterInAnnotationObjectKey, c))
